@@ -53,7 +53,7 @@ def run(ctx):
                 '(c) tables of 1-4 columns x 2-8 rows with string / int / float / missing cells, rows agreeing in all, all-but-one column, '
                 'or only after concatenation without separator: pc(table), pc_joint(table, columns), legacy (alpha, beta) tuple; (d) random '
                 'samples up to N = 2000. non-trivial := at least two values repeat and pc is strictly between 0 and 1')
-    Nmax = 8 if ctx.quick else 10
+    Nmax = 8 if ctx.quick else 12
     cases = []
     for N in range(2, Nmax + 1):
         for pat in partitions(N):
@@ -112,7 +112,7 @@ def run(ctx):
             ctx.violation('property', 'pc(%s, %s) = %s / swapped %s, but %d of the %d cross pairs coincide' % (a, b, impl, impl_sym, num, den),
                           dict(func='pc2', a=a, b=b, expected='%d/%d' % (num, den)), site='stats.pc[two]')
     # (c) tables
-    for t in range(60 if ctx.quick else 800):
+    for t in range(60 if ctx.quick else 3000):
         ncol, nrow = rng.randint(1, 4), rng.randint(2, 8)
         cols = ['TRAV', 'CDR3A', 'TRBV', 'CDR3B'][:ncol]
         with_missing = rng.random() < 0.4
